@@ -5,7 +5,8 @@ H = "vf.harness.walk"
 META = {
     "bounds": {"quick": "skeleton  k0 ; loop n1 { k1 ; loop n2 { k2 } ; k3 } ; k4  with every slot one of 9 fragments (nothing, prepare_all, measure_all, gate, "
                         "subcircuit block, block leaving a section open, single-branch parallel block closing a section, macro with a whole section, macro with a gate); "
-                        "16 shards of (k0,k4,k3); k1 in 4 fragments, k2 in all 9, outer loop count 0..2 symbolic, inner count 2",
+                        "16 shards of (k0,k4,k3); k1 in 4 fragments, k2 in all 9, outer loop count 0..2 symbolic, inner count 2; "
+                        "backend history: two programs of two fragments (6 kinds) each on one backend object",
                "thorough": "324 shards (all k0, k4; k3 in 4 fragments); k1 in 5 fragments, k2 in all 9, outer loop count 0..2 symbolic, inner count 2"},
     "assumptions": ["reference automaton transcribed from the statement (vf/harness/walk.py: automaton)"],
     "outside": ["more than two nested loops", "branch/case statements"],
@@ -28,4 +29,10 @@ def jobs(tier):
                       functions=["DiscoverSubcircuits.visit_GateStatement", "DiscoverSubcircuits.visit_BlockStatement", "DiscoverSubcircuits.visit_Circuit",
                                  "DiscoverSubcircuits.visit_LoopStatement", "TraceSerializer", "expand_subcircuits", "expand_macros"],
                       note="accepted <=> reference automaton accepts; number of subcircuits equal; contents of each subcircuit equal; rejection is a JaqalError"))
+    for a0 in ((0, 1, 5) if q else range(6)):
+        out.append(CH(name=f"c12_backend_{a0}", base="c12_backend", func=f"{H}:c12_backend", params=[("a1", "int"), ("b0", "int"), ("b1", "int")],
+                      pre=["0 <= a1 < 6", "0 <= b0 < 6", "0 <= b1 < 6"], fixed={"a0": a0}, timeout=600 if q else 1500,
+                      functions=["run_jaqal_circuit", "IndependentSubcircuitsBackend.__call__", "UnitarySerializedEmulator", "DiscoverSubcircuits.visit_Circuit"],
+                      note="two two-fragment programs run one after the other on one backend object: each verdict (accept/reject, subcircuit count) is the reference "
+                           "automaton's; histories are selected by the solver and executed natively (enumeration-equivalent)"))
     return out
